@@ -167,3 +167,50 @@ def run(tier, seed, shard, nshards):
                 scope="shard %d/%d: %d random schedules (simple time controls, a pair of them, a time rule with and without ELSE, a daily clock-time control with a "
                       "start clock time, two rules of different priority at one instant) x hydraulic step x rule step on a four-pipe network, report step ALL: every "
                       "prescribed instant is a solved step and the reported status is the prescribed one at every reported time" % (shard, nshards, N))
+
+
+def control_line_times(tier, seed):
+    """the instants written in [CONTROLS] lines, in every notation the EPANET manual allows (decimal hours, h:mm, h:mm:ss, AM / PM), as the reader
+    (_read_control_line) turns them into seconds: enumerated over a grid of texts, against a specification written from the manual"""
+    import wntr
+    from wntr.epanet.io import _read_control_line
+    from wntr.epanet.util import FlowUnits
+    from wntr.network.controls import SimTimeCondition, TimeOfDayCondition
+    warnings.simplefilter("ignore")
+    wn = _net(3600, 360, 0)
+    evals, distinct, failures, samples = 0, set(), [], []
+    texts = []
+    for h in (0, 1, 2, 3, 7, 11, 12, 13, 23, 26, 49):
+        for frac, sec in ((".0", 0), (".25", 900), (".5", 1800), (".75", 2700), (".125", 450), ("", 0)):
+            texts.append(("%d%s" % (h, frac), None, h * 3600 + sec))
+        for mm, ss in ((0, None), (30, None), (15, 20), (59, 59), (5, 0)):
+            texts.append(("%d:%02d" % (h, mm) + ("" if ss is None else ":%02d" % ss), None, h * 3600 + mm * 60 + (ss or 0)))
+    for h in (1, 3, 11, 12):
+        for mm, ss in ((0, None), (30, None), (15, 20), (59, 59)):
+            for ampm in ("AM", "PM", "am", "pm"):
+                base = (h % 12) * 3600 + mm * 60 + (ss or 0)
+                texts.append(("%d:%02d" % (h, mm) + ("" if ss is None else ":%02d" % ss), ampm, base + (12 * 3600 if ampm.upper() == "PM" else 0)))
+    for kw in ("TIME", "CLOCKTIME"):
+        for i, (txt, ampm, want) in enumerate(texts):
+            if kw == "TIME" and ampm is not None:
+                continue
+            if kw == "CLOCKTIME" and want >= 86400:
+                continue
+            line = "LINK AB CLOSED AT %s %s%s" % (kw, txt, "" if ampm is None else " " + ampm)
+            try:
+                c = _read_control_line(line, wn, FlowUnits.LPS, "c%d" % i)
+                cond = c._condition
+                got = int(cond._threshold)
+                kind_ok = isinstance(cond, SimTimeCondition if kw == "TIME" else TimeOfDayCondition)
+            except Exception as e:
+                failures.append(dict(line=line, raised=repr(e)[:160]))
+                continue
+            evals += 1
+            distinct.add((kw, txt, ampm))
+            if got != want or not kind_ok:
+                failures.append(dict(line=line, read_as_seconds=got, manual_says=want, condition=type(cond).__name__))
+            if len(samples) < 3:
+                samples.append(dict(line=line, seconds=got))
+    return dict(evaluations=evals, distinct_nontrivial=len(distinct), failures=failures[:10], samples=samples, exhaustive=False,
+                scope="%d [CONTROLS] lines 'LINK .. AT TIME / CLOCKTIME t' with t as decimal hours (binary-exact fractions), h:mm, h:mm:ss and h:mm[:ss] AM / PM: "
+                      "the instant read equals the instant written (EPANET manual), a TIME line gives a simulation-time condition, a CLOCKTIME line a daily clock-time condition" % evals)
